@@ -404,7 +404,21 @@ func GenExifRec(r *core.Rng, o RecOpts) *ExifRec {
 		if r.Chance(1, 3) {
 			v = r.U32()
 		}
-		x.Add(0x8827, putShortOrLong(r, v, true))
+		val := putShortOrLong(r, v, true)
+		if r.Chance(1, 5) {
+			// ISOSpeedRatings has count "any": further values follow the first one (the one reported)
+			k := r.Range(1, 3)
+			if val.Type == TShort {
+				for ; k > 0; k-- {
+					val.U16 = append(val.U16, uint16(r.Pick(0, 100, 65535, 7)))
+				}
+			} else {
+				for ; k > 0; k-- {
+					val.U32 = append(val.U32, uint32(r.Pick(0, 100, 0xffffffff, 7)))
+				}
+			}
+		}
+		x.Add(0x8827, val)
 		u("Exif.ISOSpeed", uint64(v))
 	}
 	if has() {
